@@ -399,3 +399,49 @@ def flag_reach(fn, avoid=(), start=0):
                 seen.add(k)
                 stack.append(k)
     return reached
+
+
+def in_cycle(fn, b):
+    """Is block b on a CFG cycle (i.e. inside a loop)?"""
+    return b in fn.reachable(fn.normal_succs(b))
+
+
+CONV_CALLEES = {"core::convert::Into::into", "core::convert::From::from", "core::convert::TryInto::try_into",
+                "core::convert::TryFrom::try_from"}
+
+
+def chase(prog, fn, os_, through=CONV_CALLEES, depth=6):
+    """Replace call-origins whose callee is a pure conversion by the origins of their first argument."""
+    out = []
+    for o in os_:
+        if o.kind == "call" and o.data.get("callee") in through and o.data.get("args") and depth > 0:
+            out.extend(chase(prog, fn, origins(prog, fn, o.data["args"][0]), through, depth - 1))
+        else:
+            out.append(o)
+    return out
+
+
+def lookup_split(prog, fn, lookup_fn):
+    """The switch on the discriminant of `LOOKUP(..)?` in fn: (block, some_entry, none_entry) or None."""
+    hits = []
+    for sw in enum_switches(prog, fn):
+        src = sw["src"]
+        if src and all(is_call_to(prog, fn, o, lookup_fn) and o.proj[:1] == ("?ok",) and len(o.proj) == 1 for o in src):
+            some = sw["targets"].get(1)
+            none = sw["targets"].get(0, sw["otherwise"])
+            if some is None:
+                some = sw["otherwise"]
+            hits.append((sw["block"], some, none))
+    return hits
+
+
+def ret_agg_blocks(fn, adt, variant):
+    """Blocks that assign an aggregate adt::variant (anywhere; used to find `Some(..)`, `Ok(..)` constructions)."""
+    out = []
+    for b, blk in enumerate(fn.blocks):
+        if blk["cleanup"]:
+            continue
+        for s in blk["stmts"]:
+            if s["s"] == "assign" and s["rhs"]["rv"] == "agg" and s["rhs"].get("adt") == adt and s["rhs"].get("variant") == variant:
+                out.append((b, s))
+    return out
